@@ -20,7 +20,7 @@ Bodies_live == {<<"y", "w", "y">>, <<"e", "y">>}
 Bodies_dev  == {<<"y", "w">>}
 
 CallCfgs == {c \in [kind : KindSet, body : BodySet \cup {<<>>}] :
-               IF c.kind = "intro" THEN c.body = <<>> ELSE c.body \in BodySet}
+               IF c.kind \in {"intro", "ping"} THEN c.body = <<>> ELSE c.body \in BodySet}
 Cfgs == [spawn : SpawnSet, calls : [1..NCalls -> CallCfgs]]
 MCInit == \E c \in Cfgs : InitWith(c)
 MCSpec == MCInit /\ [][Next]_vars /\ Fairness
